@@ -758,6 +758,33 @@ add({"name": "make_name", "file": "dfs/cmd_extract_unused.cc",
                (r"return ss\.str\(\);", "return;  /* the assembled string is the sequence of events */", 1)]})
 
 # ---- main.cc (C11 dfs half): the command-invocation tail of main ---------------------------------------------------
+# ---- main.cc (C16 "option loop order in main"): the option table and one step of the option loop -------------------------
+add({"name": "dfs_opt_table", "file": "dfs/main.cc", "anchor": r"enum OptSignifier\s*\{", "region_end": r"\n\s*bool check_consistency\(\)",
+     "toplevel": True, "sig": "", "rules": []})
+CERR = (r"std::cerr <<(?:[^;\"]|\"(?:[^\"\\]|\\.)*\")*;", "g_diag++;  /* diagnostic text dropped */", ">=1")
+add({"name": "dfs_main_option", "file": "dfs/main.cc", "anchor": r"switch \(opt\)", "region_end": r"if \(optind == argc\)",
+     "sig": "static int dfs_main_option(int opt, struct MainState *st, const char *optarg_, size_t optarg_len)",
+     "region_epilogue": "return -1;   /* break: on to the next option */\n",
+     "rules": [(r"\}\s*\}\s*$", "}\n", 1),                              # the brace that closes the option loop itself
+               (r"case OPT_HELP:\s*\{.*?return ok \? 0 : 1;\s*\}", "case OPT_HELP: return dfs_main_help_model();   /* extracted separately: dfs_main_help */", 1),
+               (r"\btry\s*\{", "{", 1),
+               (r"catch \(std::exception& e\)\s*\{.*?return 1;\s*\}", "/* the exception handler (diagnostic and return 1) is folded into the two calls that can raise */", 1),
+               (r"std::string error;", "", 1),
+               (r"std::unique_ptr<DFS::AbstractImageFile> file = DFS::make_image_file\(optarg, error\);",
+                "struct ImageFileM *file = make_image_file_model(optarg_); if (g_exc) { g_exc = EXC_NONE; g_diag++; return 1; }", 1),
+               (r"file->connect_drives\(&storage, ([^,]*), error\)", r"connect_drives_model(file, \1)", 1),
+               (r"files\.push_back\(std::move\(file\)\);", "files_push_back(st, file);", 1),
+               CERR,
+               (r"strlen\(optarg\)", "optarg_len", ">=0"), (r"\boptarg\[0\]", "optarg_[0]", ">=0"),
+               (r"std::tie\(ok, ctx\.current_volume\) = get_drive_number\(optarg\);", "ok = get_drive_number_model(optarg_, &st->current_volume);", 1),
+               (r"std::string err;\s*auto ui_opt = parse_ui_style\(optarg, err\);", "struct opt_int_ ui_opt = parse_ui_style_model(optarg_);", 1),
+               (r"!ui_opt\b", "!ui_opt.has", 1),
+               (r"ctx = DFS::DFSContext\(([^;]*?),\s*\*ui_opt\);", r"DFSContext_assign(st, \1, ui_opt.val);", 1),
+               (r"\bctx\.", "st->", ">=2"),
+               (r"\bhow_to_allocate_drives\b", "st->how", ">=1"), (r"DFS::DriveAllocation::(\w+)", r"DriveAllocation_\1", ">=0"),
+               (r"\bshow_config = true;", "st->show_config = 1;", 1),
+               (r"DFS::verbose = true;", "st->verbose = 1;", 1)],
+     "dropped": ["diagnostic texts", "the try/catch around --file (an exception there is a diagnostic and exit status 1, as a refusal is)"]})
 add({"name": "dfs_main_tail", "file": "dfs/main.cc",
      "anchor": r"if \(show_config\)\s*\{\s*storage\.show_drive_configuration\(std::cerr\);",
      "region_end": r"\}\s*catch \(std::exception& e\)",
@@ -807,6 +834,7 @@ add({"name": "gz_inflate_loop", "file": "dfs/img_gzfile.cc",
                (r"\bfwrite\(", "gz_fwrite(", 1),
                (r"check_zlib_error_code\(zerr\);", "{ check_zlib_error_code(zerr); if (g_exc) return; }", 1),
                (r"(while \(zerr != Z_STREAM_END\))", r"\1 GZ_OUTER_CONTRACT", 1),
+               (r"GZ_OUTER_CONTRACT\s*\{", "GZ_OUTER_CONTRACT { GZ_OUTER_GHOST", 1),
                (r"\bdo\b(\s*\{\s*stream\.next_out)", r"do GZ_INNER_CONTRACT\1", 1)],
      "dropped": ["static_asserts on buffer sizes"]})
 
@@ -829,7 +857,7 @@ add({"name": "ViewFile_connect_drives", "file": "dfs/img_sdf.cc",
 
 # ---- stringutil.cc / dfs_catalog.cc (C15: names compare case-insensitively; a file is found by directory and name) ------
 add({"name": "ci_comp", "file": "dfs/stringutil.cc", "anchor": r"\[\]\(const unsigned char lhs,\s*const unsigned char rhs\)",
-     "sig": "static bool ci_comp(const unsigned char lhs, const unsigned char rhs)", "rules": [(r"\btolower\(", "tolower_chk(", ">=1")]})
+     "sig": "static bool ci_comp(const unsigned char lhs, const unsigned char rhs)", "rules": [(r"\btolower\(", "tolower_chk(", ">=0")]})
 add({"name": "case_insensitive_less", "file": "dfs/stringutil.cc", "anchor": r"bool case_insensitive_less\(const string& left,\s*const string& right\)",
      "sig": "static bool case_insensitive_less(const struct cstr *left, const struct cstr *right)",
      "rules": [(r"auto comp =\s*\[\]\(const unsigned char lhs,\s*const unsigned char rhs\)\s*\{[^{}]*\};", "/* lambda comp: extracted separately (ci_comp) */", 1),
@@ -985,6 +1013,49 @@ add({"name": "Catalog_map_sectors", "file": "dfs/dfs_catalog.cc",
                (r"out->add_file_sectors\(DFS::sector_count\(([^;]*?)\),\s*DFS::sector_count\(([^;]*?)\),\s*file_name\);", r"map_add_file_sectors(ei, sector_count(\1), sector_count(\2));", 1)],
      "dropped": ["the label (volume, directory, name) given to each sector"]})
 
+# ---- opus_cat.h / opus_cat.cc (C13, C17, C07): what the OpusDiscCatalogue constructor takes from sector 16 ----------------
+add({"name": "VolumeLocation_ctor", "file": "dfs/opus_cat.h",
+     "anchor": r"VolumeLocation\(int catalog_sector, unsigned long start, unsigned long end, char vol\)\s*:\s*", "region_end": r"\n\s*bool operator<\(const VolumeLocation& other\) const",
+     "sig": "static void VolumeLocation_ctor(struct VolumeLocation *self, int catalog_sector, unsigned long start, unsigned long end, char vol)",
+     "rules": [(r"^[^:]*:\s*", "", 1),
+               (r"catalog_location_\(catalog_sector\),\s*start_sector_\(start\), len_\(end - start\), volume_\(vol\)\s*\{",
+                "self->catalog_location_ = (catalog_sector); self->start_sector_ = (start); self->len_ = (end - start); self->volume_ = (vol);\n{", 1),
+               ASSERT(">=0"),
+               (r"const auto max = std::numeric_limits<DFS::sector_count_type>::max\(\);", "const sector_count_type max = UINT_MAX;", 1)]})
+add({"name": "safe_unsigned_multiply_u", "file": "dfs/dfs.h",
+     "anchor": r"template <typename T> T safe_unsigned_multiply\(T a, T b\)",
+     "sig": "static unsigned int safe_unsigned_multiply_u(unsigned int a, unsigned int b)",
+     "rules": [(r"static_assert\(std::numeric_limits<T>::is_integer\s*&& !std::numeric_limits<T>::is_signed\);", "/* static_assert dropped: T = unsigned int */", 1),
+               (r"\bT\(", "(unsigned int)(", 2),
+               (r"std::numeric_limits<T>::max\(\)", "UINT_MAX", 1),
+               (r'throw std::range_error\("[^"]*"\);', "{ VERIF_THROW(Other, 0); return 0; }", 1)],
+     "dropped": ["static_assert on the template parameter"]})
+OC_PRE = "#define total_disc_sectors_ (self->total_disc_sectors_)\n#define sectors_per_track_ (self->sectors_per_track_)\n"
+OC_POST = "#undef total_disc_sectors_\n#undef sectors_per_track_\n"
+add({"name": "opus_ctor_head", "file": "dfs/opus_cat.cc",
+     "anchor": r": total_disc_sectors_\(\(sector16\[1\] << 8\) \| sector16\[2\]\),", "region_end": r"static const char labels\[\] = ",
+     "sig": "static void opus_ctor_head(struct OpusCatM *self, const SectorBuffer *sector16, const struct Geometry *geom)",
+     "pre": OC_PRE, "post": OC_POST,
+     "rules": [(r"^: total_disc_sectors_\(((?:[^()]|\([^()]*\))*)\),\s*sectors_per_track_\(([^()]*)\)\s*\{", r"total_disc_sectors_ = (\1); sectors_per_track_ = (\2);\n{", 1),
+               (r"\bsector16\[", "sector16->d[", ">=3"),
+               (r"geom->total_sectors\(\)", "Geometry_total_sectors(geom)", ">=1"),
+               (r"std::ostringstream os;.*?throw DFS::BadFileSystem\(os\.str\(\)\);", "{ VERIF_THROW(BadFileSystem, 0); return; }", ">=0"),
+               (r'throw DFS::BadFileSystem\("[^"]*"\);', "{ VERIF_THROW(BadFileSystem, 0); return; }", ">=0")],
+     "region_epilogue": "}\n",
+     "dropped": ["diagnostic text"]})
+add({"name": "opus_volume_table", "file": "dfs/opus_cat.cc",
+     "anchor": r"static const char labels\[\] = \"ABCDEFGH\";", "region_end": r"std::sort\(locations_\.begin\(\), locations_\.end\(\)\);",
+     "sig": "static void opus_volume_table(struct OpusCatM *self, const SectorBuffer *sector16, const struct Geometry *geom)",
+     "pre": OC_PRE, "post": OC_POST,
+     "rules": [(r"\bsector16\[", "sector16->d[", 1), ASSERT(">=0"),
+               (r"static const char labels\[\] =", "const char labels[] =   /* `static` dropped: dfcc puts a function's static locals into the write set of its loops and havocs them with it; the array is const */", 1),
+               (r"static_cast<unsigned int>\(", "(unsigned int)(", ">=0"),
+               (r"std::ostringstream os;.*?throw DFS::BadFileSystem\(os\.str\(\)\);", "{ VERIF_THROW(BadFileSystem, 0); return; }", ">=0"),
+               (r"auto start = DFS::safe_unsigned_multiply\(([^;]*)\);", r"const unsigned int start = safe_unsigned_multiply_u(\1); if (g_exc) return;", 1),
+               (r"locations_\.emplace_back\(([^;]*)\);", r"locs_emplace_back(self, \1);", 1),
+               (r"(for \(int i = 0; \(label=labels\[i\]\) != '\\0'; \+\+i\))", r"\1 OPUS_TABLE_LOOP_CONTRACT", 1)],
+     "dropped": ["diagnostic text"]})
+
 # ---- opus_cat.cc (C17): the extent loop of the OpusDiscCatalogue constructor (after std::sort by start sector) -----------
 add({"name": "opus_volume_extents", "file": "dfs/opus_cat.cc",
      "anchor": r"unsigned long next_sector = total_disc_sectors_;", "region_end": r"\n    \}\s*\n\s*const std::vector<OpusDiscCatalogue::VolumeLocation>",
@@ -1002,6 +1073,18 @@ add({"name": "convert_title", "file": "dfs/dfs_catalog.cc", "anchor": r"std::str
      "rules": [(r"std::string title;", "struct cstr title; title.n = 0;", 1), (r"\bs([01])\[", r"s\1->d[", ">=2"),
                (r"title\.push_back\(([^;]*)\);", r"cstr_push(&title, \1);", ">=1"),
                (r"return DFS::stringutil::rtrim\(title\);", "return cstr_rtrim(title);", 1)]})
+# CatalogFragment::valid, the part before the entry loop: the header checks that decide whether a catalogue can be one at all
+# (C13: an Opus DDOS volume table is self-consistent only if every listed volume's catalogue passes this)
+add({"name": "CatalogFragment_valid_head", "file": "dfs/dfs_catalog.cc",
+     "anchor": r"unsigned short last = position_of_last_catalog_entry\(\);", "region_end": r"std::optional<DFS::sector_count_type> last_file_start;",
+     "sig": "static bool CatalogFragment_valid_head(const struct CatalogFragmentM *self, _Bool *go_on)",
+     "pre": "#define disc_format_ (self->disc_format_)\n#define total_sectors_ (self->total_sectors_)\n", "post": "#undef disc_format_\n#undef total_sectors_\n",
+     "region_epilogue": "*go_on = 1; return true;   /* falls through to the entry loop */\n",
+     "rules": [(r"position_of_last_catalog_entry\(\)", "self->position_of_last_catalog_entry_", 1),
+               (r"\bos <<(?:[^;\"]|\"(?:[^\"\\\\]|\\\\.)*\")*;", "/* diagnostic text */;", ">=1"),
+               (r"error = os\.str\(\);", "error_set();", ">=1"), (r'error = "[^"]*";', "error_set();", ">=0"),
+               (r"DFS::Format::(\w+)", r"Format_\1", ">=1")],
+     "dropped": ["diagnostic text (that an error text is set on every refusal is kept: error_set())"]})
 add({"name": "CatalogFragment_ctor", "file": "dfs/dfs_catalog.cc",
      "anchor": r"const DFS::byte title_initial\(names\[0\]\);", "region_end": r"for \(int pos = 8; pos <= position_of_last_catalog_entry_; pos \+= 8\)",
      "sig": "static void CatalogFragment_ctor(struct CatalogFragmentM *self, const SectorBuffer *names, const SectorBuffer *metadata)",
@@ -1231,9 +1314,9 @@ SA_PRE = "#define cylinder (self->cylinder)\n#define head (self->head)\n#define 
 SA_POST = "#undef cylinder\n#undef head\n#undef record\n"
 add({"name": "SectorAddress_lt", "file": "dfs/track.cc", "anchor": r"bool SectorAddress::operator<\(const SectorAddress& a\) const",
      "sig": "static bool SectorAddress_lt(const struct SectorAddress *self, const struct SectorAddress *a_)",
-     "rules": [(r"a\.cylinder", "A_CYL", 2), (r"a\.head", "A_HEAD", 2), (r"a\.record", "A_REC", 2),
-               (r"\bcylinder\b", "self->cylinder", 2), (r"\bhead\b", "self->head", 2), (r"\brecord\b", "self->record", 2),
-               (r"A_CYL", "a_->cylinder", 2), (r"A_HEAD", "a_->head", 2), (r"A_REC", "a_->record", 2)]})
+     "rules": [(r"a\.cylinder", "A_CYL", ">=0"), (r"a\.head", "A_HEAD", ">=0"), (r"a\.record", "A_REC", ">=0"),
+               (r"\bcylinder\b", "self->cylinder", ">=0"), (r"\bhead\b", "self->head", ">=0"), (r"\brecord\b", "self->record", ">=0"),
+               (r"A_CYL", "a_->cylinder", ">=0"), (r"A_HEAD", "a_->head", ">=0"), (r"A_REC", "a_->record", ">=0")]})
 add({"name": "SectorAddress_eq", "file": "dfs/track.cc", "anchor": r"bool SectorAddress::operator==\(const SectorAddress& a\) const",
      "sig": "static bool SectorAddress_eq(const struct SectorAddress *self, const struct SectorAddress *a_)",
-     "rules": [(r"\*this < a", "SectorAddress_lt(self, a_)", 1), (r"a < \*this", "SectorAddress_lt(a_, self)", 1)]})
+     "rules": [(r"\*this < a", "SectorAddress_lt(self, a_)", ">=0"), (r"a < \*this", "SectorAddress_lt(a_, self)", ">=0")]})
